@@ -8,6 +8,8 @@
 #         | ('if', C, stmt) | ('ifelse', C, stmt, stmt) | ('while', C, stmt) | ('dowhile', stmt, C)
 #         | ('for', C|None, stmt) | ('forin', stmt) | ('forof', stmt) | ('switch', [(test, ft_comment, [stmt])])   test := E | None (= default)
 #         | ('label', l, stmt) | ('try', [stmt], [stmt]|None, [stmt]|None)
+#         | ('gstmt', [stmt])                         `({get a() {...}});`  an object literal with a getter, as a statement
+#         | ('forhead', is_getter, [stmt], stmt)      `for (const [k = FN] of o) stmt`, FN = `() => {...}` / `{get a() {...}}`
 #   E := ('id', n) | ('call', n) | ('lit',) | ('this',)          C := ('T',) | ('F',) | ('O', E)
 #   program := (wrapper, [stmt])   wrapper in 'fn' | 'getter' | 'switch'
 # The printer produces the JS source, and - in the same pass - the token line for the extracted Coq model
@@ -17,8 +19,8 @@ sys.path.insert(0, os.path.dirname(os.path.abspath(__file__)))
 from lib import *
 
 RULES = ["no-unreachable", "getter-return", "no-fallthrough"]
-# repairs switched on in the model = the code as it is now: fix commits A (1), B (2) and D (8); C (4) is a known finding
-DEFAULT_MASK = 11
+# repairs switched on in the model = the code as it is now: fix commits A (1), B (2), D (8) and E (16); C (4) is a known finding
+DEFAULT_MASK = 27
 T_CALL = 999   # `v999();` - the statement of the second case of the switch wrapper
 
 # ----------------------------------------------------------------------------
@@ -27,6 +29,8 @@ T_CALL = 999   # `v999();` - the statement of the second case of the switch wrap
 TRUE_SP = ["true", "1", "!0", "true"]
 FALSE_SP = ["false", "0", "!1"]
 LIT_SP = ["1", "0", "null", "2.5"]
+# heads of a for-in/of with a default value FN: (text before FN, text after FN up to the `in`/`of` keyword)
+HEAD_SP = [("const [k = ", "]"), ("const {k = ", "}"), ("var [k = ", "]"), ("let [, k = ", "]"), ("[k = ", "]"), ("const {a: [k = ", "]}")]
 
 
 class Printer:
@@ -144,6 +148,25 @@ class Printer:
         elif k in ('forin', 'forof'):
             self.t(15 if k == 'forin' else 16, p)
             self.w("for (var k %s o) " % ("in" if k == 'forin' else "of")); self.stmt(s[1])
+        elif k == 'gstmt':
+            self.w("({")
+            gp = self.n
+            self.w("get a() ")
+            self.t(20, p, gp, self.n); self.block(s[1]); self.w("});")
+        elif k == 'forhead':
+            pre, post = self.pick(HEAD_SP)
+            self.w("for (" + pre)
+            if s[1]:
+                self.w("{")
+                fp = self.n
+                self.w("get a() ")
+            else:
+                fp = self.n
+                self.w("() => ")
+            self.t(21, p, 1 if s[1] else 0, fp, self.n); self.block(s[2])
+            if s[1]:
+                self.w("}")
+            self.w(post + self.pick([" of o) ", " in o) ", " of o) "])); self.stmt(s[3])
         elif k == 'switch':
             self.t(17, p); self.w("switch (d) {"); self.sep()
             self.cases(s[1])
@@ -308,6 +331,13 @@ def coq_term(prog):
             f = "(Some %d)" % nx() if nx() else "None"
             fb = stmts()
             return "(STry %d %d %s %s %s %s %s)" % (p, bp, blk, h, hb, f, fb)
+        if t == 20:
+            gp, pb = nx(), nx()
+            return "(SGetterStmt %d %d %d %s)" % (p, gp, pb, stmts())
+        if t == 21:
+            g, fp, pb = nx(), nx(), nx()
+            hb = stmts()
+            return "(SForHead %d %s %d %d %s %s)" % (p, "true" if g else "false", fp, pb, hb, stmt())
         raise ValueError(t)
 
     g, ps, pb = nx(), nx(), nx()
@@ -335,6 +365,8 @@ def dangling(s):
         return dangling(s[2])
     if k in ('forin', 'forof'):
         return dangling(s[1])
+    if k == 'forhead':
+        return dangling(s[3])
     if k == 'label':
         return dangling(s[2])
     return False
@@ -390,7 +422,8 @@ class Gen:
         if ctx.depth < self.max_depth and self.budget > 1:
             t = 7 if p in ("try", "mixed") else 2
             w.update({'block': 4, 'if': 6, 'ifelse': 5, 'while': 4, 'dowhile': 5 if p != "plain" else 2, 'for': 4,
-                      'forin': 1, 'forof': 1, 'switch': 3, 'label': jump + 1, 'try': t, 'arrow': 2 if p == "fn" else 0.3})
+                      'forin': 1, 'forof': 1, 'switch': 3, 'label': jump + 1, 'try': t, 'arrow': 2 if p == "fn" else 0.3,
+                      'gstmt': 2 if p == "fn" else 0.5, 'forhead': 2.5 if p == "fn" else 0.7})
             if in_list:
                 w['fn'] = 3 if p == "fn" else 0.4
         return w
@@ -463,6 +496,11 @@ class Gen:
             hb = self.stmts(sub, lo=0) if x < 0.65 else None
             fb = self.stmts(sub, lo=0) if (hb is None or x < 0.25) else None
             return ('try', blk, hb, fb)
+        if k == 'gstmt':
+            return ('gstmt', self.stmts(Ctx(False, False, (), (), d), lo=0))
+        if k == 'forhead':
+            hb = self.stmts(Ctx(False, False, (), (), d), lo=0)
+            return ('forhead', r.random() < 0.6, hb, self.stmt(loop))
         if k in ('fn', 'arrow'):
             inner = Ctx(False, False, (), (), d)
             body = self.stmts(inner, lo=0)
@@ -534,6 +572,13 @@ def enum_stmt(n, brk, cont, labels, loop_labels, mine=()):
     lab = len(labels) + 1
     for b in enum_stmt(m, brk, cont, (lab,) + tuple(labels), loop_labels, mine=(lab,) + tuple(mine)):
         yield ('label', lab, b)
+    # function-likes in expression position: a getter statement; a loop head with a getter (body of the head: i nodes)
+    for l in enum_list(m, False, False, (), ()):
+        yield ('gstmt', l)
+    for i in range(0, m):
+        for hb in enum_list(i, False, False, (), ()):
+            for b in enum_stmt(m - i, True, True, labels, ll):
+                yield ('forhead', True, hb, b)
     # two-part constructs
     for i in range(1, m):
         for a in enum_stmt(i, brk, cont, labels, loop_labels):
@@ -611,7 +656,8 @@ def model_analyze(tok_lines, mask=DEFAULT_MASK):
         for _ in range(r.int()):
             k = r.int()
             info[k] = (r.int(), r.int(), r.int(), r.int(), r.int())
-        res.append({"wf": wf, "panic": panic, "info": info, "nu": r.list(r.int), "gr": r.list(r.int), "nf": r.list(r.int)})
+        res.append({"wf": wf, "panic": panic, "info": info, "nu": r.list(r.int), "gr": r.list(r.int), "nf": r.list(r.int),
+                    "gr_panic": r.int()})
     return res
 
 
@@ -621,8 +667,11 @@ def model_oracle(tok_lines, mask=DEFAULT_MASK):
     res = []
     for o in outs:
         r = _Rd(_parse_ints(o))
-        res.append({"wf": r.int(), "c10": r.list(r.int), "getter": r.int(), "cases": r.list(r.int),
-                    "falls": r.int(), "reach": r.list(r.int)})
+        o = {"wf": r.int(), "c10": r.list(r.int), "getter": r.int(), "cases": r.list(r.int),
+             "falls": r.int(), "reach": r.list(r.int), "getters": r.list(r.int)}
+        # "getters": every getter of the program (the wrapper's one included) that violates C11; "getter": any
+        o["getter"] = 1 if (o["getter"] or o["getters"]) else 0
+        res.append(o)
     return res
 
 
@@ -638,7 +687,8 @@ def model_sem(tok_lines):
     res = []
     for o in outs:
         r = _Rd(_parse_ints(o))
-        res.append({"wf": r.int(), "nofn": r.int(), "reach": r.list(r.int), "falls": r.int(), "fall_cases": r.list(r.int)})
+        res.append({"wf": r.int(), "nofn": r.int(), "reach": r.list(r.int), "falls": r.int(), "fall_cases": r.list(r.int),
+                    "fall_getters": r.list(r.int)})
     return res
 
 
@@ -654,9 +704,9 @@ def impl_violations_of(prog, lint, sem):
     reach = set(sem["reach"])
     nu = [d["start"] for d in lint["ok"] if d["code"] == "no-unreachable"]
     out += [("c10", o) for o in sorted(set(nu)) if o in reach]
-    if prog[0] == 'getter' and sem["falls"]:
-        if not any(d["code"] == "getter-return" and d["start"] == GETTER_START for d in lint["ok"]):
-            out.append(("getter", GETTER_START))
+    # every getter (the wrapper's and the nested ones) whose body can fall off its end has to be reported
+    gr = set(d["start"] for d in lint["ok"] if d["code"] == "getter-return")
+    out += [("getter", o) for o in sem["fall_getters"] if o not in gr]
     nf = set(d["start"] for d in lint["ok"] if d["code"] == "no-fallthrough")
     out += [("cases", o) for o in sem["fall_cases"] if o not in nf]
     return out
@@ -680,7 +730,7 @@ def impl_violation_pred(kind, cls_mask=None):
 
 
 def has_violation(o):
-    return bool(o["c10"] or o["getter"] or o["cases"])
+    return bool(o["c10"] or o["getter"] or o["cases"] or o.get("getters"))
 
 
 # ----------------------------------------------------------------------------
@@ -691,8 +741,10 @@ def children(s):
     k = s[0]
     if k in ('fn',):
         return s[2]
-    if k in ('arrow', 'block'):
+    if k in ('arrow', 'block', 'gstmt'):
         return s[1]
+    if k == 'forhead':
+        return list(s[2]) + [s[3]]
     if k == 'if':
         return [s[2]]
     if k == 'ifelse':
@@ -719,13 +771,16 @@ def walk(s):
 def walk_same_fn(s):
     """sub-statements not inside a nested function"""
     yield s
-    if s[0] in ('fn', 'arrow'):
+    if s[0] in ('fn', 'arrow', 'gstmt'):
+        return
+    if s[0] == 'forhead':
+        yield from walk_same_fn(s[3])
         return
     for c in children(s):
         yield from walk_same_fn(c)
 
 
-LOOPS = ('while', 'dowhile', 'for', 'forin', 'forof')
+LOOPS = ('while', 'dowhile', 'for', 'forin', 'forof', 'forhead')
 
 
 def feature_A(body):
@@ -743,9 +798,9 @@ def feature_B(body):
         yield l
         for t in l:
             for s in walk(t):
-                if s[0] == 'fn':
+                if s[0] in ('fn', 'forhead'):
                     yield s[2]
-                elif s[0] == 'arrow':
+                elif s[0] in ('arrow', 'gstmt'):
                     yield s[1]
     for b in fn_bodies(body):
         ss = [s for t in b for s in walk_same_fn(t)]
@@ -775,10 +830,15 @@ def feature_D(body):
     return False
 
 
-FEATURES = {"A": feature_A, "B": feature_B, "C": feature_C, "D": feature_D}
-MASKS = {"A": 1, "B": 2, "C": 4, "D": 8}
-ALL_FIXES = 15
-CLASSES = "ABCD"
+def feature_E(body):
+    """a for-in/of whose head contains a function-like"""
+    return any(s[0] == 'forhead' for t in body for s in walk(t))
+
+
+FEATURES = {"A": feature_A, "B": feature_B, "C": feature_C, "D": feature_D, "E": feature_E}
+MASKS = {"A": 1, "B": 2, "C": 4, "D": 8, "E": 16}
+ALL_FIXES = 31
+CLASSES = "ABCDE"
 
 
 def model_body(prog):
@@ -845,12 +905,21 @@ def shrink_candidates_stmt(s, in_list=False):
         yield (k, ('lit',))
     if k == 'var' and s[2] is not None:
         yield ('var', s[1], None)
-    if k in ('fn', 'arrow', 'block'):
+    if k in ('fn', 'arrow', 'block', 'gstmt'):
         body = s[2] if k == 'fn' else s[1]
         if k == 'block' and in_list:
             yield list(body)                      # splice
         for v in shrink_candidates_list(body):
             yield (k, s[1], v) if k == 'fn' else (k, v)
+    elif k == 'forhead':
+        yield s[3]
+        yield ('forof', s[3])
+        yield ('gstmt', s[2]) if s[1] else ('arrow', s[2])
+        for v in shrink_candidates_list(s[2]):
+            yield ('forhead', s[1], v, s[3])
+        for v in shrink_candidates_stmt(s[3]):
+            if not isinstance(v, list):
+                yield ('forhead', s[1], s[2], v)
     elif k == 'if':
         yield s[2]
         if s[1] != ('O', ('id', 2)):
@@ -1024,6 +1093,15 @@ def compare_programs(progs, rng, mask=DEFAULT_MASK, want_oracle=True):
             stats["model_panic"] += 1
             mism.append({"kind": "model panic", "src": srcs[i]})
         a, b = icf[i], irl[i]
+        if b and "panic" in b and a and "cf" in a:
+            # getter-return's `.meta(..).unwrap()` on a missing entry: the model predicts it (getter_return_panics)
+            stats["impl_panics"] = stats.get("impl_panics", 0) + 1
+            if not m["gr_panic"]:
+                mism.append({"kind": "implementation panics, model does not", "src": srcs[i], "lint": b})
+            continue
+        if m["gr_panic"]:
+            mism.append({"kind": "model predicts a getter-return panic, implementation does not panic", "src": srcs[i]})
+            continue
         if not a or "cf" not in a or not b or "ok" not in b:
             stats["impl_error"] += 1
             mism.append({"kind": "implementation error", "src": srcs[i], "cf": a, "lint": b})
@@ -1119,7 +1197,7 @@ def compare_all(tier="quick", seed=1, mask=DEFAULT_MASK, chunk=20000, shrink_lim
                 violating.append((p, r["srcs"][i], o))
             # the properties evaluated directly on the implementation's diagnostics
             model_items = set([("c10", x) for x in o["c10"]] + [("cases", x) for x in o["cases"]] +
-                              ([("getter", GETTER_START)] if o["getter"] else []))
+                              [("getter", x) for x in o["getters"]])
             for kind, off in r["impl_viol"][i]:
                 impl_items.append((p, r["srcs"][i], kind, off, (kind, off) in model_items))
             # implementation-level cross-check of C10: a reported statement that the semantics can enter
